@@ -130,7 +130,9 @@ class Namespace:
             it = self.cls(tx["it"])
             spec = tuple(slice(None if d < 0 else d, o) for d, o in zip(tx["sh"], tx["ord"]))
             base = it[spec]
-            c = type(base)(f"{self.prefix}A{self.fresh()}", (base,), {})
+            # (native_arrays: the class exactly as the library creates and NAMES it - after item type and shape only, so that
+            #  arrays of different axis order are namesakes)
+            c = base if getattr(self, "native_arrays", False) else type(base)(f"{self.prefix}A{self.fresh()}", (base,), {})
         elif kind == "ref":
             c = xo.Ref[self.cls(tx["to"])]
         elif kind == "uref":
